@@ -217,7 +217,9 @@ class _archive_done(ContractBase):
         back = If(pr == FSMSTATE.const('running'), atom('running_trigger'), atom('updating_trigger'))
         return {'returns-where-it-came-from': And(n >= 1, at(0) == back),
                 'back-in-running': Implies(pr == FSMSTATE.const('running'), And(c.cur.f('FSM.state', s) == FSMSTATE.const('running'), c.cur.f(TR, s) == ACTIVE)),
-                'refresh-follows-an-update': Implies(pr == FSMSTATE.const('updating'), And(n >= 2, at(1) == atom('loading_trigger'), c.cur.f('FSM.state', s) == FSMSTATE.const('loading'))),
+                'refresh-follows-an-update': Implies(pr == FSMSTATE.const('updating'),
+                                                     And(n >= 2, at(1) == atom('loading_trigger'),
+                                                         Implies(Not(c.old.f('FSM._FSM__doctest', s)), c.cur.f('FSM.state', s) == FSMSTATE.const('loading')))),
                 'archive-flag-cleared': Implies(Not(c.old.f('FSM._FSM__doctest', s)), Not(c.cur.g('dawgie.pl.farm.ARCHIVE')))}
 
 
@@ -271,7 +273,10 @@ class load(ContractBase):
         n, at = fired(c)
         doc = c.old.f('FSM._FSM__doctest', s)
         return {'background-load-outstanding': Implies(Not(doc), And(c.cur.f(TR, s) == ENTERING, started(c, '_pipeline'), n == 0,
-                                                                     c.cur.f('FSM.state', s) == FSMSTATE.const('loading')))}
+                                                                     c.cur.f('FSM.state', s) == FSMSTATE.const('loading'))),
+                'nothing-else-yet': Implies(Not(doc), And(c.cur.g('dawgie.pl.farm.ARCHIVE') == c.old.g('dawgie.pl.farm.ARCHIVE'),
+                                                          c.cur.f('FSM._FSM__prior', s) == c.old.f('FSM._FSM__prior', s),
+                                                          c.cur.f('FSM.priority', s) == c.old.f('FSM.priority', s)))}
 
 
 @contract(W, 'dawgie/pl/state.py', 'FSM.load.<locals>.done', props=['C10'])
